@@ -191,10 +191,13 @@ TrObs(c, t, s, e) ==
   /\ JJ({"C11", "C14"}, CntEq(c, e, s2))
   /\ st' = Resync(c, e, s2)
 
-\* The observers as calls (concurrent logs): what they returned is what the projection shows.
+\* The observers as calls (concurrent logs).  They change nothing and (on ut_map / ut_set) do not
+\* purge: what they return is the size before the projection's own lookups ran.
 TrObserver(c, t, s, e) ==
-  /\ JJ({"C02", "C06"}, CASE e.op = "size"     -> e.ret = SzOr(e, s.size)
-                          [] e.op = "empty"    -> (e.ret = 1) = (SzOr(e, s.size) = 0)
+  LET lo == IF c.kind \in TtlCaches THEN NLive(s) ELSE s.size     \* earlier probes may have reaped
+      hi == s.size IN
+  /\ JJ({"C02", "C06"}, CASE e.op = "size"     -> lo <= e.ret /\ e.ret <= hi
+                          [] e.op = "empty"    -> (e.ret = 1 => lo = 0) /\ (e.ret = 0 => hi > 0)
                           [] e.op = "capacity" -> (c.kind \in CacheKinds => e.ret = c.cap))
   /\ TrObs(c, t, s, e)
 
